@@ -1,0 +1,18 @@
+//go:build verif
+
+package agd
+
+// Contracts for govc (see /verif/DESIGN.md).  Comment-only file.
+
+// C03: only a DeviceResultOK exposes a profile and device downstream.
+//
+//@ func (*RequestInfo).DeviceData
+//@   property C03
+//@   ensures only-ok-exposes: (p != nil || d != nil) ==> isptr(ri.DeviceResult, DeviceResultOK)
+//@   ensures isptr(ri.DeviceResult, DeviceResultOK) && asptr(ri.DeviceResult, DeviceResultOK) != nil ==>
+//@             p == asptr(ri.DeviceResult, DeviceResultOK).Profile && d == asptr(ri.DeviceResult, DeviceResultOK).Device
+//@   ensures !isptr(ri.DeviceResult, DeviceResultOK) ==> p == nil && d == nil
+
+// Profiles are built by the profile database and replaced as a whole on
+// synchronisation; their settings objects are never reassigned.
+//@ immutable Profile.Ratelimiter, Profile.Access, Profile.ID
